@@ -10,7 +10,8 @@ from . import c12
 # à = c3 a0, Ѕ = d0 85: last UTF-8 byte looks like NBSP / NEL; U+2028 and FF: line ends for str.splitlines() only, not for Sieve comments
 # e + U+0301 (decomposed) and U+2126 OHM SIGN (a singleton): text that Unicode normalisation would rewrite - names are octets, not glyphs
 CHARS = ["a", " ", "é", "#", ":", '"', "F", "à", "Ѕ", "\u2028", "\x0c", "e\u0301", "\u2126"]
-MARKERS = [("# Filter: ", "# Description: "), ("# rule:", "# info:"), ("#N ", "#D "), ("# Règle : ", "# Détail → ")]
+MARKERS = [("# Filter: ", "# Description: "), ("# rule:", "# info:"), ("#N ", "#D "), ("# Règle : ", "# Détail → "),
+           ("# [Filter] ", "# (Desc)+ ")]  # markers are plain text, also when they hold regular-expression metacharacters
 
 
 def texts(maxlen, markers):
@@ -96,7 +97,7 @@ def check_roundtrip(ns, fs, markers=None):
 def hist_events():
     ev = []
     for n in ("a", "b"):
-        for d in ("d1", "d3", "d5", "d6", "d7"):
+        for d in ("d1", "d3", "d5", "d6", "d7", "d10", "d12"):
             ev.append(("add", n, d))
         ev.append(("update", n, "c", "d2"))
         ev.append(("replace", n, ("fresh", "d4"), None, "desc é: x"))
